@@ -2,7 +2,8 @@
     stream, for EVERY body: 354, one reply per recipient in RCPT order
     (a delivery reply carrying exactly the submitted octets, or a refusal of
     the message for that recipient when it is over the size limit or fails the
-    message checks), and then exactly what a session in the reset state does
+    message checks, or when that recipient is over quota), and then exactly
+    what a session in the reset state does
     with the rest of the stream. *)
 From Coq Require Import String Ascii List Bool ZArith NArith Lia.
 From Raven Require Import Base.GoStr Model.Lmtp Spec.LmtpDialog Proof.LmtpData Proof.LmtpDialog.
@@ -12,15 +13,16 @@ Local Open Scope Z_scope.
 Section Tx.
   Variable accepts : str -> bool.
   Variable delivers : str -> str -> bool.
+  Variable over : str -> str -> bool.
   Variable c : cfg.
 
-  Notation run := (run accepts delivers c).
+  Notation run := (run accepts delivers over c).
 
   (** the per-recipient replies for the body [b] *)
   Definition finals_of (s : st) (b : list str) : list ev :=
     let d := concat b in
     if len d >? max_size c then map (fun r => Refuse r 552) (rcpts s)
-    else if accepts d then map (fun r => Deliver r d (delivers r d)) (rcpts s)
+    else if accepts d then map (fun r => if over r d then Refuse r 552 else Deliver r d (delivers r d)) (rcpts s)
     else map (fun r => Refuse r 554) (rcpts s).
 
   (** body lines are consumed silently, whatever their size and content *)
@@ -34,7 +36,7 @@ Section Tx.
       rewrite T in E. destruct (d_big d); [discriminate|].
       destruct (_ >? _); discriminate.
     - fold (stuff b). rewrite IH.
-      destruct (Lmtp.run _ _ _ _ _ _) as [e r]. reflexivity.
+      destruct (Lmtp.run _ _ _ _ _ _ _) as [e r]. reflexivity.
   Qed.
 
   Theorem transaction s dl args b term rest :
@@ -76,7 +78,8 @@ Section Tx.
   Proof.
     unfold finals_of.
     destruct (_ >? _); [|destruct (accepts _)];
-      induction (rcpts s) as [|r rs IH]; try reflexivity; cbn; now rewrite ?str_eqb_refl.
+      induction (rcpts s) as [|r rs IH]; try reflexivity; cbn;
+      try destruct (over r (concat b)); cbn; now rewrite ?str_eqb_refl.
   Qed.
 
   Corollary transaction_tx_ok s dl args b term rest :
